@@ -1,18 +1,9 @@
 mod build;
 mod c19;
-#[cfg(feature = "c50dev")]
 mod c50;
 mod env;
 mod scripted;
 
-#[cfg(not(feature = "c50dev"))]
-fn main() {
-    vf_kit::dispatch! {
-        "c19" => c19::C19,
-    }
-}
-
-#[cfg(feature = "c50dev")]
 fn main() {
     vf_kit::dispatch! {
         "c19" => c19::C19,
